@@ -51,20 +51,17 @@ def load_leg(chk, tier, mode, constants, invariants, media=("mem", "sstream", "s
     unspecified = 0
     for g in groups:
         cs = dict(constants, Widths="{" + ", ".join(g) + "}")
-        sc = mp.gen("MC_LoadScript", dict({"Arch": '"%s"' % arch, "Mode": '"%s"' % mode, "Pads": "{0}" if arch == "json" else "{2}"}, **cs),
-                    invariants, arch + "-" + mode + "-w" + g[0], chk, timeout=3000, xmx="6g")
-        for lo in range(0, len(sc), 50000):
-            pairs = mp.replay(sc[lo:lo + 50000], list(media), 8, arch[0] + mode[0], arch)
+        for sc in mp.gen_chunks("MC_LoadScript", dict({"Arch": '"%s"' % arch, "Mode": '"%s"' % mode, "Pads": "{0}" if arch == "json" else "{2}"}, **cs),
+                                invariants, arch + "-" + mode + "-w" + g[0], chk, timeout=3000, xmx="6g", chunk=50000):
+            pairs = mp.replay(sc, list(media), 8, arch[0] + mode[0], arch)
             mp.judge(chk, pairs, label or ("%s %s load" % (arch.upper(), mode)))
-            chk.add_cases(len(pairs), validated=len(pairs))
-            del pairs
-        chk.add_cases(0, distinct_keys=((arch + "load", json.dumps(s["doc"]), json.dumps(s["root"]), json.dumps(s["pol"])) for s in sc))
-        unspecified += sum(1 for s in sc if s["exp"]["exc"] == ["unspecified"])
-        if sc:
-            s = sc[len(sc) // 2]
-            chk.sample({"leg": arch + "-" + mode, "document": bytes(s["doc"]).decode("latin-1")[:160], "meta": s["meta"], "script": s["root"], "expected": s["exp"]})
-        total += len(sc)
-        del sc
+            chk.add_cases(len(pairs), distinct_keys=((arch + "load", json.dumps(s["doc"]), json.dumps(s["root"]), json.dumps(s["pol"])) for s in sc), validated=len(pairs))
+            unspecified += sum(1 for s in sc if s["exp"]["exc"] == ["unspecified"])
+            if total == 0 and sc:
+                s = sc[len(sc) // 2]
+                chk.sample({"leg": arch + "-" + mode, "document": bytes(s["doc"]).decode("latin-1")[:160], "meta": s["meta"], "script": s["root"], "expected": s["exp"]})
+            total += len(sc)
+            del pairs, sc
     key = arch + "-" + mode
     chk.cov.setdefault("unspecified_scenarios", {})[key] = chk.cov.get("unspecified_scenarios", {}).get(key, 0) + unspecified
     return total
